@@ -111,7 +111,8 @@ impl ChannelParser {
         // Check for tauri::* namespace
         if all_segments.len() >= 2 {
             let first = all_segments.first().unwrap().ident.to_string();
-            if first == "tauri" {
+            // `tauri::ipc::Channel`, `tauri::Channel` or, after `use tauri::ipc;`, `ipc::Channel`
+            if first == "tauri" || (first == "ipc" && all_segments.len() == 2) {
                 return true;
             }
         }
